@@ -9,6 +9,11 @@ import RbV.Lemmas.BomOracle
 import RbV.Thm.GenSrcKmpLps
 import RbV.Thm.GenSrcShiftAndMasks
 import RbV.Thm.GenSrcHorspoolNew
+import RbV.Thm.GenSrcShiftAndNext
+import RbV.Thm.GenSrcKmpNext
+import RbV.Thm.GenSrcHorspoolNext
+import RbV.Thm.GenSrcBndmNext
+import RbV.Thm.GenSrcBomNext
 /-!
 # C08 — exact matchers return exactly all occurrences
 
@@ -235,5 +240,147 @@ theorem horspool_new_source_empty_panics : Gen.SrcHorspoolNew.new [] = Rs.Res.pa
 
 example := horspool_new_source_spec [1, 2, 1] (by decide) (by decide)
 example : Horspool.shiftTab [1, 1, 3, 2] 1 = 2 ∧ Horspool.shiftTab [1, 1, 3, 2] 2 = 4 := by decide
+
+/-! ## The search loops translated from the source text (genpm; docs/notes/GEN.md, "Translated function bodies")
+
+`Matches::next` is translated as a function on the explicit iterator state; `Rs.drain next fuel s` calls it until it returns
+`None` — what a consumer of `find_all(..)` sees.  The text iterator `text.into_iter().enumerate()` is the pair
+(bytes not yet consumed, counter): the trusted reading of `IntoIterator<Item = &u8>` over a slice. -/
+
+/-- **ShiftAnd end to end on the translated source text**: `ShiftAnd::new(p)`, `.find_all(t)` and `Matches::next` called
+until `None`, all three as written in `shift_and.rs`, never panic (the `m <= 64` assertion holds, `i + 1 - m` never
+underflows, `masks[c]` is in bounds) and list exactly the occurrences of `p` in `t` — for every byte pattern of 1..64
+symbols and every byte text. No mirror model is left between the source text and the specification for this matcher. -/
+theorem shiftAnd_source_exact (p t : List Nat) (hp : 0 < p.length) (hm : p.length ≤ 64) (hbp : ∀ c ∈ p, c < 256)
+    (hb : ∀ c ∈ t, c < 256) (h64 : t.length < 2 ^ 64) :
+    GenSrcShiftAndNext.findAllSrc p t = Rs.Res.ok (occurrences p t) := by
+  rw [GenSrcShiftAndNext.findAllSrc_eq_model p t hp hm hbp hb h64, shiftAnd_exact p t hp hm]
+
+/-- one call of the translated `next` from a state that satisfies the automaton invariant: no panic; `None` only with the
+text exhausted and no further match in the model; `Some(v)` with `v` the model's next match and the invariant restored -/
+theorem shiftAnd_next_source_eq_model (p : List Nat) (hp : 0 < p.length) (hm : p.length ≤ 64) (rest pre : List Nat)
+    (active : Nat) (hinv : ShiftAnd.Inv p pre active) (hb : ∀ c ∈ rest, c < 256)
+    (h64 : pre.length + rest.length < 2 ^ 64) :
+    ∃ a' tx' r, GenSrcShiftAndNext.nextS p (active, (rest, pre.length)) = Rs.Res.ok ((a', tx'), r) ∧
+      GenSrcShiftAndNext.StepSpec p rest pre active a' tx' (r.map some) :=
+  GenSrcShiftAndNext.next_eq_model p hp hm rest pre active hinv hb h64
+
+/-- the translated constructor refuses patterns of more than 64 symbols -/
+theorem shiftAnd_new_source_long_panics (p : List Nat) (hm : 64 < p.length) :
+    Gen.SrcShiftAndNext.new p = Rs.Res.panic :=
+  GenSrcShiftAndNext.new_long_panics p hm
+
+example : GenSrcShiftAndNext.findAllSrc [1, 2, 1] [1, 2, 1, 2, 1] = Rs.Res.ok [0, 2] := by
+  rw [shiftAnd_source_exact _ _ (by decide) (by decide) (by decide) (by decide) (by decide)]; decide
+
+/-- **KMP end to end on the translated source text**: `KMP::new(p)` (which calls the translated `lps`), `.find_all(t)`
+and `Matches::next` (which calls the translated `delta`) until `None`, as written in `kmp.rs`, never panic (`1 + i - m`
+never underflows: the state `m` is only reached after `m` symbols) and list exactly the occurrences of `p` in `t`, for
+every non-empty pattern and every byte text. -/
+theorem kmp_source_exact (p t : List Nat) (hp : 0 < p.length) (h64 : p.length < 2 ^ 64) (hb : ∀ c ∈ t, c < 256)
+    (ht : t.length < 2 ^ 64) : GenSrcKmpNext.findAllSrc p t = Rs.Res.ok (occurrences p t) := by
+  rw [GenSrcKmpNext.findAllSrc_eq_model p t hp h64 hb ht, kmp_exact p t hp]
+
+/-- the loop alone: `next` driven until `None` from any state that satisfies the automaton invariant = the scanner of
+the mirror model from that state -/
+theorem kmp_next_source_eq_model (p : List Nat) (hp : 0 < p.length) (h64 : p.length < 2 ^ 64) (fuel : Nat)
+    (rest pre : List Nat) (q : Nat) (hmax : Kmp.MaxPS p pre q) (hb : ∀ c ∈ rest, c < 256)
+    (hi : pre.length + rest.length < 2 ^ 64) (hf : rest.length < fuel) :
+    Rs.drain (GenSrcKmpNext.nextS p) fuel (q, (rest, pre.length))
+      = Rs.Res.ok (Scan.scan (Kmp.delta p (Kmp.lps p)) (fun q => q == p.length) p.length rest pre.length q) :=
+  GenSrcKmpNext.drain_eq_scan p hp h64 fuel rest pre q hmax hb hi hf
+
+example : GenSrcKmpNext.findAllSrc [1, 2, 1] [1, 2, 1, 2, 1] = Rs.Res.ok [0, 2] := by decide
+
+/-- **Horspool end to end on the translated source text**: `Horspool::new(p)`, `.find_all(t)` and `Matches::next` until
+`None`, as written in `horspool.rs` (the `loop` with the inner skip `while`, the checked `last += shift[..]`,
+`last + 1 - m`, the slice comparison `text[i..j] == pattern[..m - 1]`), never panic, never run out of the loop fuel
+`n - last + 1` (every table entry is at least 1) and list exactly the occurrences of `p` in `t`, for every non-empty byte
+pattern and every byte text with `|t| + |p| < 2^64`. -/
+theorem horspool_source_exact (p t : List Nat) (hp : 0 < p.length) (hb : ∀ c ∈ t, c < 256) (hbp : ∀ c ∈ p, c < 256)
+    (h64 : t.length + p.length < 2 ^ 64) : GenSrcHorspoolNext.findAllSrc p t = Rs.Res.ok (occurrences p t) := by
+  rw [GenSrcHorspoolNext.findAllSrc_eq_model p t hp hb hbp h64, horspool_exact p t hp]
+
+/-- one call of the translated `next` from window end `last ≥ m - 1`: no panic; `None` only if the model's walk from `last`
+finds nothing; `Some(i)` with `i` the model's next match, and the model continues from the new `last` (`G` = the mirror
+model's `Horspool.go` with sufficient fuel) -/
+theorem horspool_next_source_eq_model (p t : List Nat) (hp : 0 < p.length) (hb : ∀ c ∈ t, c < 256)
+    (hbp : ∀ c ∈ p, c < 256) (h64 : t.length + p.length < 2 ^ 64) (pl : Nat) (hpl : p[p.length - 1]? = some pl)
+    (last : Nat) (hl : p.length - 1 ≤ last) :
+    ∃ last' r, GenSrcHorspoolNext.nextS p t pl last = Rs.Res.ok (last', r) ∧
+      ((r = none ∧ GenSrcHorspoolNext.G p t last = []) ∨
+       (∃ i, r = some i ∧ last < last' ∧ GenSrcHorspoolNext.G p t last = i :: GenSrcHorspoolNext.G p t last')) :=
+  GenSrcHorspoolNext.next_eq_model p t hp hb hbp h64 pl hpl last hl
+
+example : GenSrcHorspoolNext.findAllSrc [1, 2, 1] [1, 2, 1, 2, 1] = Rs.Res.ok [0, 2] := by
+  rw [horspool_source_exact _ _ (by decide) (by decide) (by decide) (by decide)]; decide
+
+/-- **BNDM end to end on the translated source text**: `BNDM::new(p)` (the translated `shift_and::masks` on the reversed
+pattern, the `m <= 64` assertion), `.find_all(t)` and `Matches::next` until `None`, as written in `bndm.rs` (outer window
+loop, inner `while active != 0` with its `break`, `text[window - j]`, `window - m`, `m - lastsuffix`, the saturated
+start value of `active`), never panic, never run out of the loop fuel and list exactly the occurrences of `p` in `t`, for
+every byte pattern of 1..64 symbols and every byte text with `|t| + |p| < 2^64`. -/
+theorem bndm_source_exact (p t : List Nat) (hp : 0 < p.length) (hm : p.length ≤ 64) (hbp : ∀ c ∈ p, c < 256)
+    (hb : ∀ c ∈ t, c < 256) (h64 : t.length + p.length < 2 ^ 64) :
+    GenSrcBndmNext.findAllSrc p t = Rs.Res.ok (occurrences p t) :=
+  GenSrcBndmNext.findAllSrc_eq_model p t hp hm hbp hb h64
+
+/-- one call of the translated `next` from window position `window ≥ m`: no panic; `None` only if the model finds nothing
+from there; `Some(v)` with `v` the model's next match, and the model continues from the new window (`G` = the mirror model's
+`Bndm.outer` with sufficient fuel) -/
+theorem bndm_next_source_eq_model (p t : List Nat) (hp : 0 < p.length) (hm : p.length ≤ 64) (hb : ∀ c ∈ t, c < 256)
+    (h64 : t.length + p.length < 2 ^ 64) (window : Nat) (hw : p.length ≤ window) :
+    ∃ w' r, GenSrcBndmNext.nextS p t window = Rs.Res.ok (w', r) ∧
+      ((r = none ∧ GenSrcBndmNext.G p t window = []) ∨
+       (∃ v, r = some v ∧ window < w' ∧ p.length ≤ w' ∧
+          GenSrcBndmNext.G p t window = v :: GenSrcBndmNext.G p t w')) :=
+  GenSrcBndmNext.next_eq_model p t hp hm hb h64 window hw
+
+/-- the translated inner loop follows the mirror model's `Bndm.inner` step by step (whatever the tables) -/
+theorem bndm_inner_source_eq_model (ms : ShiftAnd.MState) (m : Nat) (t : List Nat) (window : Nat)
+    (hb : ∀ c ∈ t, c < 256) (hw : window + 1 < 2 ^ 64) (fuel j active ls : Nat) (occ0 : Option Nat) (b : Bool)
+    (ls' : Nat) (h : Bndm.inner ms m t window fuel j active ls = some (b, ls')) :
+    ∃ a' j', Gen.SrcBndmNext.next_while2 (GenSrc.tab 256 ms.masks) t window ms.accept m (fuel + 1) (active, occ0, ls, j)
+      = Rs.Res.ok (a', (if b then some (window - m) else occ0), ls', j') :=
+  GenSrcBndmNext.while2_eq ms m t window hb hw fuel j active ls occ0 b ls' h
+
+/-- the translated constructor refuses patterns of more than 64 symbols -/
+theorem bndm_new_source_long_panics (p : List Nat) (hm : 64 < p.length) : Gen.SrcBndmNext.new p = Rs.Res.panic :=
+  GenSrcBndmNext.new_long_panics p hm
+
+example : GenSrcBndmNext.findAllSrc [1, 2, 1] [1, 2, 1, 2, 1] = Rs.Res.ok [0, 2] := by
+  rw [bndm_source_exact _ _ (by decide) (by decide) (by decide) (by decide) (by decide)]; decide
+
+/-- **BOM search on the translated source text**: `BOM::find_all(t)` and `Matches::next` until `None` (which calls the
+translated `BOM::delta`), as written in `bom.rs` — the backward scan `while j <= m { match q { Some(q_) => …, None =>
+break } }`, `text[window - j]`, `window - m`, `m + 2 - j` — run over the oracle table `Bom.build p` of the mirror model,
+never panic, never run out of loop fuel and list exactly the occurrences of `p` in `t`, for every non-empty pattern and
+every text with `|t| + |p| + 2 < 2^64`.  The constructor `BOM::new` is not translated (`while let`, `VecMap` insertion):
+that it builds `Bom.build p` stays tied by the mirror model and the comparison of the real table (tag `bom-table-same`). -/
+theorem bom_search_source_exact (p t : List Nat) (hp : 0 < p.length) (h64 : t.length + p.length + 2 < 2 ^ 64) :
+    GenSrcBomNext.findAllSrc p t = Rs.Res.ok (occurrences p t) :=
+  GenSrcBomNext.findAllSrc_eq_model p t hp h64
+
+/-- `BOM::delta` as written = the model's `delta`, for every table (a `VecMap` given by its entries), state and symbol -/
+theorem bom_delta_source_eq_model (T : Bom.Table) (q a : Nat) :
+    Gen.SrcBomNext.delta T q a = Rs.Res.ok (Bom.delta T q a) :=
+  GenSrcBomNext.delta_eq_model T q a
+
+/-- one call of the translated `next` from window position `window ≥ m` vs. the model's `Bom.search` (`G`) -/
+theorem bom_next_source_eq_model (p t : List Nat) (hp : 0 < p.length) (h64 : t.length + p.length + 2 < 2 ^ 64)
+    (window : Nat) (hw : p.length ≤ window) :
+    ∃ w' r, GenSrcBomNext.nextS p t window = Rs.Res.ok (w', r) ∧
+      ((r = none ∧ GenSrcBomNext.G p t window = []) ∨
+       (∃ v, r = some v ∧ window < w' ∧ p.length ≤ w' ∧
+          GenSrcBomNext.G p t window = v :: GenSrcBomNext.G p t w')) :=
+  GenSrcBomNext.next_eq_model p t hp h64 window hw
+
+/-- the translated inner loop follows the model's `scanS` (panics explicit) step by step, for every table -/
+theorem bom_scan_source_eq_model (T : Bom.Table) (t : List Nat) (window m : Nat) (hw : window + 1 < 2 ^ 64)
+    (fuel j : Nat) (q : Option Nat) (r : Option Nat × Nat) (h : Bom.scanS T t window m fuel j q = some r) :
+    Gen.SrcBomNext.next_while2 m T t window (fuel + 1) (q, j) = Rs.Res.ok r :=
+  GenSrcBomNext.while2_eq T t window m hw fuel j q r h
+
+example : GenSrcBomNext.findAllSrc [1, 2, 1] [1, 2, 1, 2, 1] = Rs.Res.ok [0, 2] := by decide
 
 end RbV.Thm.C08
